@@ -6,6 +6,7 @@ from gen import SeqGen
 
 ID = "C10"
 HEAP_SUMMARY = True      # end every program with the reference-level observation (BB.Model.Heap vs id() walk)
+UNIVERSAL_EVERY = 6      # every n-th case is a feature-rich random program (props/universal.py)
 LEAN_MODULE = "BB.Properties.C10"
 QUICK_N = 250
 THOROUGH_N = 3000
